@@ -152,17 +152,34 @@ impl FileRunner {
                             for m in msgs {
                                 let m = m.into_record();
                                 if let Some(dst) = self.target_file.as_mut() {
-                                    if let OutputStreamMessageRecord::Entry(e) = m {
-                                        if let Some(custom_str) = e.custom {
-                                            dst.write_all(custom_str.as_ref()).await.unwrap();
+                                    match m {
+                                        // Log entries carrying custom text are written as that
+                                        // text, on one line: line breaks (and the escape
+                                        // character itself) are escaped.
+                                        OutputStreamMessageRecord::Entry(LogEntry { custom: Some(custom_str), .. }) => {
+                                            let line = custom_str
+                                                .replace('\\', "\\\\")
+                                                .replace('\n', "\\n")
+                                                .replace('\r', "\\r");
+                                            dst.write_all(line.as_ref()).await.unwrap();
                                             dst.write_all(b"\n").await.unwrap();
                                         }
-                                    } else {
-                                        match self.config.format {
+                                        // Everything else, including log entries without custom
+                                        // text, is serialized in the configured format.
+                                        m => match self.config.format {
                                             Format::Csv => {
                                                 let mut wrt = csv::WriterBuilder::new().has_headers(false).from_writer(vec![]);
-                                                wrt.serialize(m).unwrap();
-                                                dst.write_all(&wrt.into_inner().unwrap()).await.unwrap();
+                                                // Not every record can be represented as CSV (e.g.
+                                                // routes with extended communities): skip those
+                                                // instead of taking the whole target down.
+                                                match wrt.serialize(m) {
+                                                    Ok(()) => {
+                                                        dst.write_all(&wrt.into_inner().unwrap()).await.unwrap();
+                                                    }
+                                                    Err(e) => {
+                                                        error!("file-out: record not representable as CSV, skipped: {}", e);
+                                                    }
+                                                }
                                             }
                                             Format::Json => {
                                                 if let Ok(bytes) = serde_json::to_vec(&m) {
